@@ -71,6 +71,25 @@ def generate(rng, tier, idx):
         sc['hwm'] = rng.choice([None, None, 1024, 65536, 4099])
         sc['pace'] = gen_pace(rng, sc['has_header'])
         return sc
+    if r < 0.0415:
+        # very many short records (more than 2^17) handed over in one piece or in a few large same-tick chunks: sizes at which
+        # per-record work done with spread calls, recursion or repeated array copies starts to matter
+        line = rng.choice(['1\n', 'a\r\n', '7\n', 'x,y\n'])
+        count = rng.choice([131072 + 100, 150000, 262144 + 50])
+        text = line * count + rng.choice(['', 'end'])
+        sc['text'] = text
+        sc['mode'] = 'stream'
+        sc['comment_prefix'] = None
+        sc['pace'] = {'mode': rng.choice(['all', 'all', 'manual']), 'gaps': [], 'header_first': True if sc['has_header'] else rng.random() < 0.3}
+        sc['timing_pattern'] = [rng.choice(['sync', 'sync', 'tick', 'immediate'])]
+        sc['hwm'] = rng.choice([None, None, 1048576])
+        nb = len(text.encode('utf-8'))
+        parts = {(nb,)}
+        for size in rng.sample([65536, 65537, 262144, 100000, 16384], 2):
+            parts.add(tuple([size] * (nb // size) + ([nb % size] if nb % size else [])))
+        sc['partitions'] = sorted(list(p) for p in parts)
+        sc['many_records'] = True
+        return sc
     if r < 0.10:
         # a few KiB delivered as a mixture of tiny and large (>= 1 KiB) chunks: what a pipe does with `(head -1 f; tail -n +2 f)`
         unit = c12.gen_text(rng, rng.choice([7, 23, 60]))
@@ -143,6 +162,9 @@ def plan_for(data, pieces, pattern):
 
 
 def view(resp, two_readers=False):
+    if resp.get('uncaught_exceptions'):
+        # thrown out of an event handler of the reader: a program without a process-level handler dies here
+        return ['uncaught', resp['uncaught_exceptions'][0]]
     if resp['outcome'] == ['ok']:
         return ['ok', resp['records'], resp['header'], resp['warnings']]
     oc = resp['outcome']
@@ -241,9 +263,11 @@ def execute(sc):
     bump(counters, 'sched.pace_' + sc['pace']['mode'])
     if jdata is not None:
         bump(counters, 'sched.two_readers_join_stream')
+    if sc.get('many_records'):
+        bump(counters, 'sched.more_than_131072_records')
     if sc['text'][:1] == '﻿':
         bump(counters, 'probe.bom_present')
-    if ref[0] == 'ok' and sc['policy'] == 'quoted_rfc' and any(isinstance(f, str) and '\n' in f for rec in ref[1] for f in rec):
+    if ref[0] == 'ok' and isinstance(ref[1], list) and sc['policy'] == 'quoted_rfc' and any(isinstance(f, str) and '\n' in f for rec in ref[1] for f in rec):
         bump(counters, 'probe.rfc_record_spans_lines')
     res['digest'] = core.digest(digest_parts)
     return res
